@@ -9,10 +9,12 @@ package main
 import (
 	"encoding/json"
 	"fmt"
+	"io"
 	"math/rand"
 	"net/http"
 	"os"
 	"runtime/debug"
+	"strconv"
 	"strings"
 	"time"
 
@@ -188,6 +190,15 @@ func runAmmo(res *vkit.Result, c Case, final bool, watchdog time.Duration) strin
 		res.Count("outcome_error", 1)
 	} else {
 		res.Count("outcome_delivered", 1)
+		// "truncated entries are rejected with an error": where the format's own framing shows that
+		// the last entry is cut (declared size larger than what is left; an unfinished JSON value),
+		// ending without an error means the cut entry was silently swallowed
+		if c.Mut == "truncate" && !strings.Contains(c.Mut, "continue-on-error") {
+			if why := cutEntry(c); why != "" {
+				res.Violate(key("truncated-entry-accepted"), fmt.Sprintf("%s, yet the provider ended without an error after delivering %d ammo", why, len(dr.Items)), c)
+			}
+			res.Count("truncations_judged_for_rejection", 1)
+		}
 	}
 	// well-formed entries before the corruption must come out unchanged
 	if c.Format != "grpcjson" && c.Aux != "" {
@@ -207,6 +218,54 @@ func runAmmo(res *vkit.Result, c Case, final bool, watchdog time.Duration) strin
 				break
 			}
 			res.Count("intact_entries_compared", 1)
+		}
+	}
+	return ""
+}
+
+// cutEntry says why the input's last entry is certainly incomplete by the format's own framing
+// ("" when it cannot be told, e.g. a uri line cut short is still a uri line).
+func cutEntry(c Case) string {
+	text := string(c.Text)
+	switch c.Format {
+	case "uripost", "raw":
+		// walk the entries: "<size> …\n" followed by size bytes
+		off := 0
+		for off < len(text) {
+			nl := strings.IndexByte(text[off:], '\n')
+			if nl < 0 {
+				return "" // header line itself is cut: not judged
+			}
+			line := strings.TrimSpace(text[off : off+nl])
+			next := off + nl + 1
+			if line == "" || strings.HasPrefix(line, "[") {
+				off = next
+				continue
+			}
+			tok := strings.Fields(line)[0]
+			size, err := strconv.Atoi(tok)
+			if err != nil || size < 0 {
+				return ""
+			}
+			if size > 0 && size <= 1<<20 && next+size > len(text) {
+				return fmt.Sprintf("the last entry declares %d bytes but only %d follow its header line", size, len(text)-next)
+			}
+			off = next + size
+		}
+	case "jsonline":
+		dec := json.NewDecoder(strings.NewReader(text))
+		for {
+			var v any
+			err := dec.Decode(&v)
+			if err == io.EOF {
+				return ""
+			}
+			if err != nil {
+				if strings.TrimSpace(text) == "" {
+					return ""
+				}
+				return "the file ends inside a JSON value (" + err.Error() + ")"
+			}
 		}
 	}
 	return ""
